@@ -150,8 +150,15 @@ func c01(args []string) int {
 		}
 		return q
 	}
+	// Run-capped layers first: the time they do not use is inherited by the layers after them.
+	// Every page size with the core alphabet.
+	for _, n := range []string{"ps1024", "ps2048", "ps4096", "ps8192", "ps16384", "ps32768", "ps65536"} {
+		layers = append(layers, Layer{Name: "exact/" + n + "/core", Cfg: cfgs[n], Alphabet: alphaCore, Depth: d(2, 3), MaxRuns: int64(d(80, 0))})
+	}
 	// Layer 1: exact bounded search from the initial state.
 	layers = append(layers,
+		Layer{Name: "seeded/base/down-after-own-checkpoint", Cfg: cfgs["base"], Alphabet: strings.Fields("U CK:PASSIVE CK:TRUNCATE START NEW"), Depth: d(3, 5),
+			Seeds: [][]string{strings.Fields("W3 SW LC:PASSIVE SW CL"), strings.Fields("W3 SW LC:TRUNCATE SW CL"), strings.Fields("W3 SW LC:PASSIVE SW KILL")}},
 		Layer{Name: "exact/base/core", Cfg: cfgs["base"], Alphabet: alphaCore, Depth: d(3, 5)},
 		Layer{Name: "exact/min3/core", Cfg: cfgs["min3"], Alphabet: alphaCore, Depth: d(3, 4)},
 		Layer{Name: "exact/base/tx", Cfg: cfgs["base"], Alphabet: alphaTx, Depth: d(3, 5)},
@@ -165,10 +172,6 @@ func c01(args []string) int {
 		Layer{Name: "exact/trunc4/core", Cfg: cfgs["trunc4"], Alphabet: alphaCore, Depth: d(2, 4)},
 		Layer{Name: "exact/ckint/core", Cfg: cfgs["ckint"], Alphabet: alphaCore, Depth: d(2, 4)},
 	)
-	// Every page size with the core alphabet.
-	for _, n := range []string{"ps1024", "ps2048", "ps4096", "ps8192", "ps16384", "ps32768", "ps65536"} {
-		layers = append(layers, Layer{Name: "exact/" + n + "/core", Cfg: cfgs[n], Alphabet: alphaCore, Depth: d(2, 3), MaxRuns: int64(d(80, 0))})
-	}
 	// Layer 2: exact search from seed prefixes.
 	layers = append(layers,
 		Layer{Name: "seeded/base/core", Cfg: cfgs["base"], Alphabet: alphaCore, Depth: d(2, 3), Seeds: c01Seeds()},
